@@ -127,9 +127,21 @@ def falsify_C04(ctx):
             hp = [c for c in cbs if c["kind"] == "T" and c["prio"] < cbs[i]["prio"]]
             lower = [c for j, c in enumerate(cbs) if j != i and not (c["kind"] == "T" and c["prio"] < cbs[i]["prio"])]
             B = max([c["cost"] - 1 for c in lower], default=0)
-            op = f"ros_tm {ss} rbf {gen.arr_str(cbs[i]['arr'])} sc {cbs[i]['cost']} ragg {len(hp)}" + \
+            own_cost_s = f"sc {cbs[i]['cost']}"
+            pattern = None
+            if cbs[i]["cost"] >= 2 and rng.random() < 0.3:
+                # cost CURVE for the analysed timer: a job costs at most c1, two consecutive jobs at most c1 + c2
+                # with c2 < c1 (alternating expensive / cheap instances comply with it)
+                c1 = cbs[i]["cost"]
+                c2 = rng.randint(1, c1 - 1)
+                own_cost_s = f"cc 2 {c1} {c1 + c2}"
+                pattern = (i, [c1, c2])
+                T1 = rng.randint(5, 12)
+                cbs[i]["arr"] = ("per", T1) if rng.random() < 0.6 else ("spo", T1, rng.randint(0, T1))
+                dist["timer_cost_curves"] = dist.get("timer_cost_curves", 0) + 1
+            op = f"ros_tm {ss} rbf {gen.arr_str(cbs[i]['arr'])} {own_cost_s} ragg {len(hp)}" + \
                 "".join(f" rbf {gen.arr_str(c['arr'])} sc {c['cost']}" for c in hp) + f" {B} 400"
-            target = ("cb", i)
+            target = ("cb", i, pattern)
         else:
             pol = [j for j, c in enumerate(cbs) if c["kind"] == "P"]
             i = rng.choice(pol)
@@ -161,6 +173,15 @@ def falsify_C04(ctx):
             tr = [] if rep < 2 else None
             # execution times: the WCET, or (every third scenario) anything between 1 and the WCET
             exf = ros_sim.ex_formula(cbs, rng.randint(0, 9), rng.randint(0, 9), rng.randint(0, 9)) if rep % 3 == 1 else None
+            if target[0] == "cb" and len(target) > 2 and target[2] is not None:
+                # instances of the analysed timer alternate between the costs the curve allows; a random phase
+                pi_, pat_ = target[2]
+                cnt_ = [rng.randint(0, 1)]
+                def exf(i_, t_, cnt_=cnt_, pi_=pi_, pat_=pat_):
+                    if i_ != pi_:
+                        return cbs[i_]["cost"]
+                    cnt_[0] += 1
+                    return pat_[cnt_[0] % len(pat_)]
             st = [] if tr is not None else None
             done = ros_sim.simulate_executor(cbs, rels, sigma, chains, trace=tr, ex=exf, started=st)
             if exf is not None:
